@@ -5,20 +5,10 @@
   with slots, generation-stamped caches, three-valued Update, the two tag-popping
   routines, key construction by models.MakeKey).  Statement: Influx.Spec.C16.
 -/
-import Influx.Lemmas.DelPredMatch
-import Influx.Lemmas.DelPredTotal
-import Influx.Model.DelPredRun
-import Influx.Spec.C16
+import Influx.Lemmas.DelPredRunInv
 
 namespace Influx.Props.C16
 open Influx.Model.DelPred Influx.Spec.C16
-
-/-- The domain found by the proof: on a well-formed series the compiled predicate is exact iff
-    * the measurement name does not end in a backslash and contains no `=`,
-    * no tag key / (non-empty) tag value ends in a backslash,
-    * the key handed to `Matches` does not contain the field separator `#!~#`. -/
-def KeyOK (name : Bytes) (tags : Tags) : Bool :=
-  noTrailBs name && !name.contains 61 && tagsOK tags && !hasSep (seriesKey name tags)
 
 /-- **C16 (partial: inside `KeyOK`)** — for every predicate over `=`/`!=` on tags and
     `_measurement` with AND/OR and every well-formed series in `KeyOK`, compiling the predicate and
@@ -49,6 +39,13 @@ theorem C16_total (d : DNode) (m : Matcher) (h : newMatcher d = some m) (key : B
     ∃ b m', m.matches key = some (b, m') :=
   let ⟨b, m', h1, _⟩ := matches_total m key (newMatcher_WF d m h)
   ⟨b, m', h1⟩
+
+/-- The domain found by the proof (`Influx.Model.DelPred.KeyOK`): on a well-formed series the
+    compiled predicate is exact if the measurement name does not end in a backslash and contains
+    no `=`, no tag key / non-empty tag value ends in a backslash, and the key handed to `Matches`
+    does not contain the field separator `#!~#`. -/
+theorem KeyOK_def (name : Bytes) (tags : Tags) :
+    KeyOK name tags = (noTrailBs name && !name.contains 61 && tagsOK tags && !hasSep (seriesKey name tags)) := rfl
 
 /-- Compiling a predicate of the AST never fails. -/
 theorem C16_compiles (p : Pred) : (newMatcher (toDataType p)).isSome = true := by
@@ -82,127 +79,6 @@ theorem C16_full_fails_fieldsep :
   decide
 
 /-! ### the run-time oracle accepts every trace of the model inside the domain -/
-
-/-- every series matched in the case that is well-formed lies in the theorem's domain -/
-def OpsOK : List Op → Bool
-  | [] => true
-  | .matchSeries name tags field :: ops =>
-    (!SeriesWF name tags ||
-      (KeyOK name tags && (field.isNone || !hasSep (seriesKey name tags ++ [35, 33, 126])))) && OpsOK ops
-  | _ :: ops => OpsOK ops
-
-/-- model state vs. the predicate the statement checker has in force -/
-def StInv : Option Matcher → Option Pred → Prop
-  | none, none => True
-  | none, some _ => False
-  | some m, none => WFn m.values.length m.root
-  | some m, some p => MInv p m
-
-theorem minv_wf {p m} (h : MInv p m) : WFn m.values.length m.root := by
-  obtain ⟨_, hwf, _⟩ := skel_props _ p _ h.shape
-  rw [h.len]; exact (WFn_strip _ _).1 hwf
-
-theorem judge_run (ops : List Op) (hok : OpsOK ops = true) (st : Option Matcher) (cur : Option Pred)
-    (hinv : StInv st cur) : (judgeCase cur (run st ops)).all (· ≠ .fail) = true := by
-  induction ops generalizing st cur with
-  | nil => rfl
-  | cons op ops ih =>
-    cases op with
-    | setPred p =>
-      obtain ⟨m, hm, hmi⟩ := newMatcher_spec p
-      have hok' : OpsOK ops = true := by simpa [OpsOK] using hok
-      simp only [run, stepOp, hm, judgeCase, if_true, List.all_cons, Bool.and_eq_true]
-      exact ⟨by decide, ih hok' (some m) (some p) hmi⟩
-    | setRaw d =>
-      have hok' : OpsOK ops = true := by simpa [OpsOK] using hok
-      simp only [run, stepOp]
-      cases hm : newMatcher d with
-      | none =>
-        simp only [judgeCase, List.all_cons, Bool.and_eq_true]
-        exact ⟨by decide, ih hok' none none trivial⟩
-      | some m =>
-        simp only [judgeCase, List.all_cons, Bool.and_eq_true]
-        exact ⟨by decide, ih hok' (some m) none (newMatcher_WF d m hm)⟩
-    | clone =>
-      have hok' : OpsOK ops = true := by simpa [OpsOK] using hok
-      simp only [run, stepOp]
-      cases st with
-      | none =>
-        simp only [judgeCase, List.all_cons, Bool.and_eq_true]
-        exact ⟨by decide, ih hok' none cur hinv⟩
-      | some m =>
-        simp only [judgeCase, List.all_cons, Bool.and_eq_true]
-        exact ⟨by decide, ih hok' (some m) cur hinv⟩
-    | matchSeries name tags field =>
-      simp only [OpsOK, Bool.and_eq_true] at hok
-      obtain ⟨hdom, hok'⟩ := hok
-      simp only [run, stepOp]
-      cases st with
-      | none =>
-        cases cur with
-        | some p => exact absurd hinv (by simp [StInv])
-        | none =>
-          simp only [judgeCase, List.all_cons, Bool.and_eq_true]
-          exact ⟨by decide, ih hok' none none trivial⟩
-      | some m =>
-        cases cur with
-        | none =>
-          obtain ⟨b, m', hm', hwf'⟩ := matches_total m
-            (match field with
-              | none => seriesKey name tags
-              | some f => compositeKey (seriesKey name tags) f) hinv
-          simp only [hm', judgeCase, List.all_cons, Bool.and_eq_true]
-          exact ⟨by decide, ih hok' (some m') none hwf'⟩
-        | some p =>
-          by_cases hwfd : (PredWF p && SeriesWF name tags) = true
-          · -- inside the property's domain: the answer is the reference value
-            simp only [Bool.and_eq_true] at hwfd
-            obtain ⟨hp, hs⟩ := hwfd
-            simp only [hs, Bool.not_true, Bool.false_or, Bool.and_eq_true] at hdom
-            obtain ⟨hk, hfield⟩ := hdom
-            simp only [KeyOK, Bool.and_eq_true, Bool.not_eq_true', List.contains_eq_mem,
-              decide_eq_false_iff_not] at hk
-            obtain ⟨⟨⟨hnt, h61⟩, htags⟩, hsep⟩ := hk
-            have hcut : cutFieldSep (match field with
-                | none => seriesKey name tags
-                | some f => compositeKey (seriesKey name tags) f) = seriesKey name tags := by
-              cases field with
-              | none => exact cutFieldSep_of_not_hasSep _ hsep
-              | some f =>
-                simp only [Option.isNone_some, Bool.false_or, Bool.not_eq_true'] at hfield
-                exact cutFieldSep_composite _ f hfield
-            obtain ⟨m', hm', hmi'⟩ := matches_spec p m hinv _ name tags hcut hp hs hnt h61 htags
-            simp only [hm', judgeCase, judgeMatch, hp, hs, Bool.and_self, Bool.not_true,
-              Bool.false_eq_true, if_false, if_true, List.all_cons, Bool.and_eq_true]
-            exact ⟨by decide, ih hok' (some m') (some p) hmi'⟩
-          · -- outside: it still answers, and the invariant is kept
-            obtain ⟨b, m', hm', hwf'⟩ := matches_total m
-              (match field with
-                | none => seriesKey name tags
-                | some f => compositeKey (seriesKey name tags) f) (minv_wf hinv)
-            -- the matcher keeps its shape (MInv) on any key: use totality plus shape preservation
-            have hmi' : MInv p m' := by
-              obtain ⟨b2, m2, h1, h2, h3, h4, h5⟩ := matchLoop_total
-                ((cutFieldSep (match field with
-                  | none => seriesKey name tags
-                  | some f => compositeKey (seriesKey name tags) f)).contains 92)
-                (cutFieldSep (match field with
-                  | none => seriesKey name tags
-                  | some f => compositeKey (seriesKey name tags) f)).length m.reset _ (Nat.le_refl _)
-                (by simpa [Matcher.reset] using minv_wf hinv)
-              have heq : m' = m2 := by
-                have : m.matches (match field with
-                  | none => seriesKey name tags
-                  | some f => compositeKey (seriesKey name tags) f) = some (b2, m2) := h1
-                rw [hm'] at this
-                exact (Prod.mk.inj (Option.some.inj this)).2
-              subst heq
-              refine ⟨by rw [h4]; exact hinv.locs, by rw [h3, h4]; simpa [Matcher.reset] using hinv.len, ?_, ?_⟩
-              · rw [h4, h2]; exact hinv.shape
-              · sorry
-            simp only [hm', judgeCase, judgeMatch, hwfd, Bool.not_false, if_true, List.all_cons,
-              Bool.and_eq_true]
-            exact ⟨by decide, ih hok' (some m') (some p) hmi'⟩
 
 /-- **C16_holdsOn (partial: series inside `KeyOK`)** — the statement checker accepts the model's
     trace on every case whose well-formed series lie in the domain. -/
